@@ -24,7 +24,8 @@ def run(ctx, chk, mod):
     if not files:
         raise AnalysisBroken("no self-test source for " + pid)
     n_pos = n_neg = 0
-    for cfg in getattr(mod, "SELFTEST_CONFIGS", ["BASE"]):
+    cfgs = getattr(mod, "SELFTEST_CONFIGS", ["BASE"])
+    for cfg in cfgs:
         base = ctx.program(cfg)
         data = facts.extract_files(pid + "-" + cfg, files, base.data)
         prog = ir.Program(data)
@@ -48,7 +49,8 @@ def run(ctx, chk, mod):
             m = re.match(r"bad_([a-z0-9_]+?)__", fn.name)
             if m:
                 m2 = re.search(r"_only_([a-z0-9]+)$", fn.name)
-                if m2 and m2.group(1).upper() != cfg:
+                want_cfg = m2.group(1).upper() if m2 else cfgs[0]
+                if want_cfg != cfg:
                     continue
                 n_pos += 1
                 want = m.group(1)
